@@ -52,14 +52,14 @@ def build_one(ctx, prog, backend, rt_obj):
     return exe, ''
 
 
-def build_many(ctx, progs, backends, jobs=8):
-    """{(prog.name, backend): (exe, log)} — compiles in parallel (each is ~2-3 s)"""
+def build_many(ctx, progs, backends, jobs=8, pairs=None):
+    """{(prog.name, backend): (exe, log)} — compiles in parallel (each is ~2-3 s).  pairs = explicit [(prog, backend)]"""
     rt, err = build_rt(ctx)
     if rt is None:
         return None, 'ptg_rt.c: ' + err
     out = {}
     with concurrent.futures.ThreadPoolExecutor(max_workers=jobs) as ex:
-        futs = {ex.submit(build_one, ctx, p, b, rt): (p.name, b) for p in progs for b in backends}
+        futs = {ex.submit(build_one, ctx, p, b, rt): (p.name, b) for (p, b) in (pairs if pairs is not None else [(p, b) for p in progs for b in backends])}
         for f in concurrent.futures.as_completed(futs):
             out[futs[f]] = f.result()
     return out, ''
@@ -68,6 +68,9 @@ def build_many(ctx, progs, backends, jobs=8):
 def run_exe(exe, g, threads=1, sched=None, keyfile=None, timeout_ms=20000, extra_env=None, ranks=1, tiles=16):
     """run one compiled program; returns (rc, transcript text(s), stderr).  ranks > 1: mpiexec, one transcript per rank."""
     env = dict(pv.MPI_ENV)
+    if ranks == 1:
+        # singleton MPI_Init without the runtime daemon and with the loopback transport only (7 s -> 1.5 s on a loaded machine)
+        env.update({'OMPI_MCA_ess_singleton_isolated': '1', 'OMPI_MCA_btl': 'self', 'OMPI_MCA_pml': 'ob1'})
     env['PTG_TIMEOUT_MS'] = str(timeout_ms)
     if sched:
         env['PARSEC_MCA_mca_sched'] = sched
@@ -77,13 +80,13 @@ def run_exe(exe, g, threads=1, sched=None, keyfile=None, timeout_ms=20000, extra
     if keyfile:
         args += ['-k', keyfile]
     if ranks == 1:
-        rc, o, e = pv.sh(args, env=env, timeout=timeout_ms / 1000.0 + 30)
+        rc, o, e = pv.sh(args, env=env, timeout=timeout_ms / 1000.0 + 240)
         return rc, o, e
     outp = exe + '.out'
     xs = []
     for k in env:
         xs += ['-x', k]
-    rc, o, e = pv.sh(['mpiexec', '--oversubscribe', '-n', str(ranks)] + xs + args + ['-o', outp], env=env, timeout=timeout_ms / 1000.0 + 60)
+    rc, o, e = pv.sh(['mpiexec', '--oversubscribe', '-n', str(ranks)] + xs + args + ['-o', outp], env=env, timeout=timeout_ms / 1000.0 + 300)
     texts = []
     for r in range(ranks):
         f = '%s.%d' % (outp, r)
